@@ -182,6 +182,35 @@ fn check_grey_after_frame(c: &YuvConfig, u8s: bool, w: usize, h_prev: usize, h: 
     Ok(())
 }
 
+/// part (a4), one history (the caller provides a fresh thread)
+fn after_error_once(d1: u8, r1: bool, d2: u8, r2: bool, ek: u8, mi: usize) -> Result<u64, Violation> {
+    let mc = STD_MC[mi % 7];
+    let mut local = Stats::new();
+    // 1. a valid decode at (d1, r1)
+    let c1 = cfg(mc, TC::BT1886, CP::BT709, d1, r1, (0, 0));
+    let l1: Vec<u16> = (0..64u32).map(|i| (i * 3 % (1u32 << d1)) as u16).collect();
+    let _ = catch(|| decode_grey::<u16>(&c1, &l1));
+    // 2. a decode at (d2, r2) that fails
+    let bad = if ek == 0 { cfg(yuvxyb::MatrixCoefficients::Reserved, TC::BT1886, CP::BT709, d2, r2, (0, 0)) } else { cfg(yuvxyb::MatrixCoefficients::ChromaticityDerivedNonConstantLuminance, TC::BT1886, CP::Reserved0, d2, r2, (0, 0)) };
+    let l2: Vec<u16> = (0..64u32).map(|i| (i * 5 % (1u32 << d2)) as u16).collect();
+    let _ = catch(|| decode_grey::<u16>(&bad, &l2));
+    // 3. the neutral ramp at (d2, r2)
+    let c2 = cfg(mc, TC::BT1886, CP::BT709, d2, r2, (0, 0));
+    let max = (1u32 << d2) - 1;
+    let k = 1u32 << (d2 - 8);
+    let mut lumas: Vec<u16> = (0..=255u32).map(|i| (i * (max / 255)) as u16).collect();
+    lumas.extend([0u16, max as u16, (16 * k) as u16, (235 * k) as u16]);
+    check_yuv_grey(&c2, false, &lumas, &mut local).map(|_| local.comparisons)
+}
+
+fn replay_after_error(v: &Value) -> Result<(), String> {
+    let g = |k: &str| v.get(k).and_then(|x| x.as_u64()).ok_or_else(|| k.to_string());
+    let b = |k: &str| v.get(k).and_then(|x| x.as_bool()).unwrap_or(false);
+    let (d1, d2, ek, m) = (g("d1")? as u8, g("d2")? as u8, g("ek")? as u8, g("m")? as usize);
+    let (r1, r2) = (b("r1"), b("r2"));
+    std::thread::spawn(move || after_error_once(d1, r1, d2, r2, ek, m).map(|_| ()).map_err(|v| v.message)).join().map_err(|_| "panicked".to_string())?
+}
+
 fn replay_after_frame(v: &Value) -> Result<(), String> {
     let c = crate::api::cfg_from_json(v.get("cfg").ok_or("cfg")?).ok_or("cfg")?;
     let u8s = v.get("storage").and_then(|s| s.as_str()) == Some("u8");
@@ -405,9 +434,47 @@ pub fn run(ctx: &Ctx, st: &mut Stats) -> Vec<Violation> {
             None
         }));
     }
+    if !out.is_empty() {
+        return out;
+    }
+    // (a4) a neutral ramp decoded after a valid decode at another (depth, range) and a *failing* decode (reserved matrix,
+    // or a primaries-derived matrix with unsupported primaries) at its own (depth, range), on a fresh thread: state that a
+    // failed call left half-updated must not reach the next one
+    {
+        let combos: Vec<(u8, bool)> = vec![(8, false), (8, true), (10, false), (10, true), (12, false), (16, true)];
+        let mut hj = Vec::new();
+        for a in &combos {
+            for b in &combos {
+                if a != b {
+                    for ek in 0..2u8 {
+                        hj.push((*a, *b, ek));
+                    }
+                }
+            }
+        }
+        out.extend(par_sweep(ctx, st, hj.len() as u64, |lo, hi, st| {
+            for j in lo..hi {
+                let ((d1, r1), (d2, r2), ek) = hj[j as usize];
+                let r = std::thread::scope(|sc| sc.spawn(|| after_error_once(d1, r1, d2, r2, ek, (j % 7) as usize)).join());
+                match r {
+                    Ok(Ok(n)) => st.comparisons += n,
+                    Ok(Err(mut v)) => {
+                        v.message = format!("{} [decoded right after a valid decode at depth {d1} / full {r1} and a failing decode at depth {d2} / full {r2} on the same thread]", v.message);
+                        v.case = json!({"prop":"C16","part":"yuv-after-error","d1":d1,"r1":r1,"d2":d2,"r2":r2,"ek":ek,"m":j % 7});
+                        return Some(v);
+                    }
+                    Err(_) => return Some(Violation { signature: "C16:panic".into(), message: "history panicked".into(), case: json!({"prop":"C16"}) }),
+                }
+                st.evaluations += 1;
+                st.nontrivial_by_construction += 1;
+                st.class("grey_ramp_after_failed_decode_histories", 1);
+            }
+            None
+        }));
+    }
     // real-size neutral frames (above 2^21 pixels), the two ranges of a depth decoded back to back on one
     // thread in both orders: black exactly 0, white 1, greys grey, whatever was decoded before
-    let big: Vec<(usize, usize)> = if ctx.quick() { vec![(1449, 1449)] } else { vec![(1449, 1449), (2049, 2049), (3841, 2161)] };
+    let big: Vec<(usize, usize)> = if ctx.quick() { vec![(1449, 1449), (2897, 2897)] } else { vec![(1449, 1449), (2049, 2049), (2897, 2897), (3841, 2161), (4097, 4097)] };
     // (sequentially, on this thread: the frames of one depth must really follow each other)
     let seq = Ctx { id: ctx.id.clone(), tier: ctx.tier, seed: ctx.seed, threads: 1, known_open: vec![], build: ctx.build.clone(), light: ctx.light };
     out.extend(par_sweep(&seq, st, 1, |_, _, st| {
@@ -528,6 +595,7 @@ pub fn replay(v: &Value) -> Result<(), String> {
         }
         Some("yuv-pairs") => replay_pairs(v),
         Some("yuv-after-frame") => replay_after_frame(v),
+        Some("yuv-after-error") => replay_after_error(v),
         Some("linear") => {
             let g: Vec<f32> = v.get("grey").and_then(|g| g.as_array()).ok_or("grey")?.iter().filter_map(j2f).collect();
             check_linear_greys(&g, &mut st).map_err(|v| v.message)
@@ -536,4 +604,4 @@ pub fn replay(v: &Value) -> Result<(), String> {
     }
 }
 
-pub const RULE: &str = "enumeration: (a) every luma code at every depth 8..16 x 7 matrices x 2 ranges (u8 and u16 at 8 bit) with chroma 2^(n-1): RGB spread <= 5e-7, nominal black exactly 0, nominal white within 1e-6; (a2) the same for grey pixels placed right after a related coloured pixel (the grey triple with +-2^a on one plane and +-2^b on another, all a, b, planes and signs; 8 grey levels incl. black and white per config); (a3) neutral 4:2:0 / 4:4:0 / 4:2:2 / 4:1:0 / 4:1:1 frames of width 64..256 decoded right after a coloured frame of the same width and another height on the same (fresh) thread; (b) the 12 non-log curves x 2 directions at 0 (within 1e-6) and 1 (within the C03 budget); (c-e) linear grey levels (quick: 2^20+1 levels k/2^20 and every 4099th f32 bit pattern of [0,1]; thorough: every f32 in [0,1]) through XYB (|X|, |Y-B| <= 1e-6, black -> 0; both as pure grey ramps and embedded in images with coloured pixels and repeated grey levels), HSL (H=0, S=0, L=grey) and the 22 primaries conversions (spread <= 1e-5*max(1,|v|)); plus real-size neutral frames and linear grey images (above 2^21 pixels; thorough: above 2^22 and UHD+1), the two ranges of a depth decoded back to back; a case = one ramp / one block of grey levels / one frame; all cases are distinct by construction and all are non-trivial (they exercise the neutral axis, which is the subject of the property)";
+pub const RULE: &str = "enumeration: (a) every luma code at every depth 8..16 x 7 matrices x 2 ranges (u8 and u16 at 8 bit) with chroma 2^(n-1): RGB spread <= 5e-7, nominal black exactly 0, nominal white within 1e-6; (a2) the same for grey pixels placed right after a related coloured pixel (the grey triple with +-2^a on one plane and +-2^b on another, all a, b, planes and signs; 8 grey levels incl. black and white per config); (a3) neutral 4:2:0 / 4:4:0 / 4:2:2 / 4:1:0 / 4:1:1 frames of width 64..256 decoded right after a coloured frame of the same width and another height on the same (fresh) thread; (a4) a neutral ramp decoded after a valid decode at another (depth, range) and a failing decode at its own, on a fresh thread; (b) the 12 non-log curves x 2 directions at 0 (within 1e-6) and 1 (within the C03 budget); (c-e) linear grey levels (quick: 2^20+1 levels k/2^20 and every 4099th f32 bit pattern of [0,1]; thorough: every f32 in [0,1]) through XYB (|X|, |Y-B| <= 1e-6, black -> 0; both as pure grey ramps and embedded in images with coloured pixels and repeated grey levels), HSL (H=0, S=0, L=grey) and the 22 primaries conversions (spread <= 1e-5*max(1,|v|)); plus real-size neutral frames and linear grey images (above 2^21 and 2^23 pixels; thorough: also above 2^22, UHD+1 and above 2^24), the two ranges of a depth decoded back to back; a case = one ramp / one block of grey levels / one frame; all cases are distinct by construction and all are non-trivial (they exercise the neutral axis, which is the subject of the property)";
